@@ -213,11 +213,11 @@ func c19Run(c *fw.Case, n int) {
 
 func init() {
 	fw.Register(&fw.Check{ID: "C19", Level: "exploration",
-		Technique: "runtime monitoring: PRNG subscription lists and message sequences through the real Subscribe handler with recording fake target clients and a fake subscriber stream; reference split, verbatim relay and poll fan-out oracles",
-		Rule:      "each case = 40 streams; subscription lists of 1..8 entries over 1..4 targets, prefix absent / elems only / target / target+elems, all list and entry modes; sequences: subscribe, +poll(s), poll first, second subscribe; distinct_nontrivial = distinct (prefix kind, sequence kind, number of targets) shapes",
+		Technique:   "runtime monitoring: PRNG subscription lists and message sequences through the real Subscribe handler with recording fake target clients and a fake subscriber stream; reference split, verbatim relay and poll fan-out oracles",
+		Rule:        "each case = 40 streams; subscription lists of 1..8 entries over 1..4 targets, prefix absent / elems only / target / target+elems, all list and entry modes; sequences: subscribe, +poll(s), poll first, second subscribe; distinct_nontrivial = distinct (prefix kind, sequence kind, number of targets) shapes",
 		Assumptions: []string{"target clients are fakes that record the SubscribeRequest and the response handler they are given (client.Query.SubReq / ProtoHandler)", "an entry that names no target in a request where other entries do is dropped silently by the code; the property does not speak about it and the reference does the same"},
 		DistinctSet: "stream_shape", CaseTimeout: 300e9,
-		Floors:      map[string]int64{"streams": 3000, "target_requests_compared": 2000, "responses_relayed": 2000, "streams_that_must_be_refused": 800},
+		Floors: map[string]int64{"streams": 3000, "target_requests_compared": 2000, "responses_relayed": 2000, "streams_that_must_be_refused": 800},
 		Cases: func(tier string) int {
 			if tier == "thorough" {
 				return 5000
